@@ -96,6 +96,8 @@ def main(pid, tier, replay_path=None):
                 extra = conn.stall_variants(base, res, per_scenario=40 if tier == 'quick' else 80, rnd=random.Random(seed), skip_actors=())
                 # every schedule point of the focus shapes
                 extra += conn.stall_variants([s for s in scs if s.get('focus')], res, per_scenario=400, rnd=random.Random(seed + 1), skip_actors=())
+                # windows: one actor held at a point until another is in the middle of something (two connections: accept vs sweep)
+                extra += conn.window_variants([s for s in scs if s.get('focus') and len(s.get('clients', [])) > 1], res, per_scenario=150 if tier == 'quick' else 400, rnd=random.Random(seed + 2))
                 res2, crashed2 = conn.run_scenarios(sc, binary, extra, 'w', procs=14, test='TestVerifServerScenarios')
                 scs = scs + extra + mscs
                 res.update(res2)
@@ -119,7 +121,7 @@ def main(pid, tier, replay_path=None):
                 for e in r['events'][max(0, v['line'] - 16):v['line'] + 1]:
                     vlib.log('     %-9s %-13s %-9s n=%s m=%s %s' % (e['g'], e['e'], e['k'], e['n'], e['m'], e['err']))
                 if len(violations) < 6:
-                    s1 = dict(s0); s1['strategy'], s1['plan'] = 'plan', r['info']['taken']
+                    s1 = dict(s0); s1['strategy'], s1['plan'] = 'plan', r['info'].get('taken', [])
                     violations.append(vlib.save_replay(pid, '%s_%d' % (tier, len(violations)), {'property': pid, 'rule': v['rule'], 'line': v['line'], 'scenario': s1, 'events': r['events']}))
             stuck = sum(1 for r in res.values() if r['info'].get('stuck'))
             if res and stuck * 2 > len(res):
@@ -130,7 +132,7 @@ def main(pid, tier, replay_path=None):
                     samples.append({'scenario': {k: s[k] for k in s if k != 'plan'}, 'events': ['%s:%s:%s:%s' % (e['g'], e['e'], e['k'], e['n']) for e in r['events'][:40]]})
             cov = {'states': st.get('states', 1), 'transitions': st.get('transitions', 1), 'traces_validated_against_impl': len(res), 'samples': samples,
                    'trace_events_validated': nlines, 'scenarios_not_quiescent': stuck, 'shutdowns': sum(1 for s in scs if s['shutdown']),
-                   'distinct_schedules': len({tuple(r['info']['taken']) for r in res.values()}), 'known_findings_matched': sorted(known_hit),
+                   'distinct_schedules': len({tuple(r['info'].get('taken', [])) for r in res.values()}), 'known_findings_matched': sorted(known_hit),
                    'spec_modules': vlib.spec_hashes(['ServerObs.tla', 'TraceServer.tla']),
                    'explanation': 'real TCP listener on one manual poller, accepted connections on another, clients connecting/sending/closing and Shutdown with a deadline as '
                                   'scheduler choices; traces validated by TLC against ServerObs.tla'}
